@@ -127,6 +127,10 @@ func (p *Profile) indexExpr(t *rapid.T, d int) *Node {
 	for i := range idx {
 		idx[i] = p.Expr(t, d-1)
 	}
+	if rapid.IntRange(0, 7).Draw(t, "rootless") == 0 {
+		// the root-less form .[i][j]
+		return NIndex(nil, idx...)
+	}
 	return NIndex(p.ident(t), idx...)
 }
 
